@@ -81,6 +81,8 @@ func IDs() []string {
 	return ids
 }
 
+var stablePathProps = map[string]bool{"C01": true, "C02": true, "C03": true, "C04": true, "C08": true, "C10": true, "C11": true, "C12": true, "C13": true, "C15": true}
+
 // ColdBase is the first case index of the cold-start lane (see cmd/check).
 const ColdBase = uint64(5_000_000)
 
@@ -92,6 +94,10 @@ func NewCase(p Property, verifSeed, i uint64, tier string) *sim.Case {
 	// the clock the library reads during this run (clock seam of the instrumented copy): steady, jumping or stuck
 	if c.Cfg == nil {
 		c.Cfg = map[string]int{}
+	}
+	if _, ok := c.Cfg["stable"]; !ok && stablePathProps[p.ID()] {
+		// about a third of the single-task histories keep one file per document: every save goes over it, every open reads it
+		c.Cfg["stable"] = btoiP((c.OrderSeed>>9)%3 == 0)
 	}
 	if i >= ColdBase {
 		c.Cfg["cold"] = 1 // cold-start lane: executed in a fresh process, concurrent phase first
